@@ -131,42 +131,51 @@ structure NumMatch where
   exp : Option (Option Char × List Char)
 deriving Inhabited
 
+/-- `r` with a leading `c` removed; `none` when `r` does not start with `c` -/
+def afterChar (c : Char) : List Char → Option (List Char)
+  | d :: r => if d == c then some r else none
+  | [] => none
+
+/-- `[\-+]` at the head: the sign and the text after it -/
+def signTail : List Char → Option (Char × List Char)
+  | c :: r => if c == '-' || c == '+' then some (c, r) else none
+  | [] => none
+
 /-- first alternative `[0-9]+\.?[0-9]*` (greedy; never needs to give anything back because
     whatever follows in the pattern is optional) -/
 def matchAlt1 (r : List Char) : Option (List Char × Bool × List Char) :=
   let ds := r.takeWhile isDigit
   if ds.isEmpty then none else
-  match r.dropWhile isDigit with
-  | '.' :: r2 => some (ds, true, r2.takeWhile isDigit)
-  | _ => some (ds, false, [])
+  match afterChar '.' (r.dropWhile isDigit) with
+  | some r2 => some (ds, true, r2.takeWhile isDigit)
+  | none => some (ds, false, [])
 
 /-- second alternative `[0-9]*\.?[0-9]+`, tried only after the first failed: greedy digits, the
     optional point, at least one digit; when no digit follows the point the regex engine backtracks
     (`\.?` matches empty and `[0-9]*` gives its last digit to `[0-9]+`), matching the digits only. -/
 def matchAlt2 (r : List Char) : Option (List Char × Bool × List Char) :=
   let ds := r.takeWhile isDigit
-  match r.dropWhile isDigit with
-  | '.' :: r2 =>
+  let back := if ds.isEmpty then none else some (ds, false, [])
+  match afterChar '.' (r.dropWhile isDigit) with
+  | some r2 =>
     let fs := r2.takeWhile isDigit
-    if !fs.isEmpty then some (ds, true, fs)
-    else if ds.isEmpty then none else some (ds, false, [])
-  | _ => if ds.isEmpty then none else some (ds, false, [])
+    if fs.isEmpty then back else some (ds, true, fs)
+  | none => back
 
 /-- group 4 `(e[\-+]?[0-9]+)?` at the suffix after group 1: `none` = the optional group matched empty.
     (With a sign present but no digit after it the engine retries without the sign and fails on the
     sign character, so the group is empty.) -/
-def matchExp : List Char → Option (Option Char × List Char)
-  | 'e' :: r1 =>
-    match r1 with
-    | c :: r2 =>
-      if c == '-' || c == '+' then
-        let ds := r2.takeWhile isDigit
-        if ds.isEmpty then none else some (some c, ds)
-      else
-        let ds := r1.takeWhile isDigit
-        if ds.isEmpty then none else some (none, ds)
-    | [] => none
-  | _ => none
+def matchExp (r : List Char) : Option (Option Char × List Char) :=
+  match afterChar 'e' r with
+  | none => none
+  | some r1 =>
+    match signTail r1 with
+    | some (c, r2) =>
+      let ds := r2.takeWhile isDigit
+      if ds.isEmpty then none else some (some c, ds)
+    | none =>
+      let ds := r1.takeWhile isDigit
+      if ds.isEmpty then none else some (none, ds)
 
 def mantLen (m : List Char × Bool × List Char) : Nat :=
   m.1.length + (if m.2.1 then 1 else 0) + m.2.2.length
@@ -176,9 +185,13 @@ def expLen : Option (Option Char × List Char) → Nat
   | some (none, ds) => 1 + ds.length
   | some (some _, ds) => 2 + ds.length
 
+/-- group 1 `(alt1|alt2)`: the first alternative, and only when it fails the second -/
+def matchMant (r : List Char) : Option (List Char × Bool × List Char) :=
+  (matchAlt1 r).orElse (fun _ => matchAlt2 r)
+
 /-- `NUM_REGEX.match` on the suffix -/
 def numRegex (r : List Char) : Option NumMatch :=
-  match (matchAlt1 r).orElse (fun _ => matchAlt2 r) with
+  match matchMant r with
   | none => none
   | some m => some ⟨m.1, m.2.1, m.2.2, matchExp (r.drop (mantLen m))⟩
 
@@ -193,21 +206,37 @@ def decimalToFloat (ip fp : List Char) : Float :=
 def expValue (sg : Option Char) (ds : List Char) : Int :=
   if sg == some '-' then -((digitsVal 10 ds : Nat) : Int) else ((digitsVal 10 ds : Nat) : Int)
 
-/-- `value *= frac(1, 10**-exponent)` / `value *= 10**exponent`; `none` = OverflowError
-    (only `float * int` with an int beyond the double range raises it). -/
-def scale (v : Num) (ex : Int) : Option Num :=
-  if ex < 0 then
-    let k := (-ex).toNat
-    match v with
-    | .int n => some (.frac ((n : Rat) / ((10 ^ k : Nat) : Rat)))
-    | .flt x => some (.flt (x * Num.ratToFloat ((1 : Rat) / ((10 ^ k : Nat) : Rat))))
-    | .frac q => some (.frac q)
-  else
-    let p : Nat := 10 ^ ex.toNat
-    match v with
-    | .int n => some (.int (n * (p : Int)))
-    | .flt x => let f := Num.intToFloat (p : Int); if f.isFinite then some (.flt (x * f)) else none
-    | .frac q => some (.frac q)
+/-- exact value of the spelling `ip . fp e ex` -/
+def sciRat (ip fp : List Char) (ex : Int) : Rat :=
+  let mant : Rat := (digitsVal 10 (ip ++ fp) : Rat) / ((10 ^ fp.length : Nat) : Rat)
+  if ex < 0 then mant / ((10 ^ (-ex).toNat : Nat) : Rat) else mant * ((10 ^ ex.toNat : Nat) : Rat)
+
+/-- `float(m.group(0))` for a decimal mantissa with an exponent: the whole literal, rounded once
+    (`inf` beyond the double range) -/
+def sciToFloat (ip fp : List Char) (ex : Int) : Float := Num.ratToFloat (sciRat ip fp ex)
+
+/-- integer mantissa: `value *= frac(1, 10**-exponent)` (an unreduced-kind Fraction) / `value *= 10**exponent`.
+    Neither can raise OverflowError, the `except` clause is dead for them. -/
+def scaleInt (n : Int) (ex : Int) : Num :=
+  if ex < 0 then .frac ((n : Rat) / ((10 ^ (-ex).toNat : Nat) : Rat))
+  else .int (n * ((10 ^ ex.toNat : Nat) : Int))
+
+/-- the value of a match outside the `1..5` special case: `int(raw_value)` or `float(raw_value)`; with an
+    exponent, a decimal mantissa is re-read as a whole by `float()` (`inf` → BadNumberError = `none`) and an
+    integer mantissa is scaled exactly. -/
+def numValue (m : NumMatch) : Option Num :=
+  match m.exp with
+  | none => some (if !m.dot then .int ((digitsVal 10 m.ip : Nat) : Int) else .flt (decimalToFloat m.ip m.fp))
+  | some (sg, ds) =>
+    if m.dot then
+      let x := sciToFloat m.ip m.fp (expValue sg ds)
+      if x.isInf then none else some (.flt x)
+    else some (scaleInt ((digitsVal 10 m.ip : Nat) : Int) (expValue sg ds))
+
+/-- the `1..5` test: `m.group(0)[-1] == "." and m.end() < len(s) and s[m.end()] == "."`
+    (group 0 ends with the point exactly when there is no exponent and no digit after the point) -/
+def rangeCase (m : NumMatch) (next : Option Char) : Bool :=
+  m.exp.isNone && m.dot && m.fp.isEmpty && next == some '.'
 
 /-- `read_num_token(i, s)` -/
 def readNumToken (i : Nat) (s : List Char) : Except LexErr (Option Token) :=
@@ -221,18 +250,12 @@ def readNumToken (i : Nat) (s : List Char) : Except LexErr (Option Token) :=
     match numRegex r with
     | none => .error (.badNumber i)
     | some m =>
-      let e := i + m.len
-      -- the `1..5` special case: group(0) ends with '.', and the next character is '.'
-      if m.exp.isNone && m.dot && m.fp.isEmpty && s[e]? == some '.' then
-        .ok (some ⟨.num, i, e - 1, .num (.int ((digitsVal 10 m.ip : Nat) : Int))⟩)
+      if rangeCase m s[i + m.len]? then
+        .ok (some ⟨.num, i, i + m.len - 1, .num (.int ((digitsVal 10 m.ip : Nat) : Int))⟩)
       else
-        let v : Num := if !m.dot then .int ((digitsVal 10 m.ip : Nat) : Int) else .flt (decimalToFloat m.ip m.fp)
-        match m.exp with
-        | none => .ok (some ⟨.num, i, e, .num v⟩)
-        | some (sg, ds) =>
-          match scale v (expValue sg ds) with
-          | some v' => .ok (some ⟨.num, i, e, .num v'⟩)
-          | none => .error (.badNumber i)
+        match numValue m with
+        | some v => .ok (some ⟨.num, i, i + m.len, .num v⟩)
+        | none => .error (.badNumber i)
 
 /-! ### constant tokens and identifiers -/
 
@@ -258,6 +281,12 @@ def matchVar : List Char → Option (List Char)
   | c :: r => if isVarStart c then some (c :: r.takeWhile isVarChar) else none
   | [] => none
 
+/-- `j < len(s) and s[j].isnumeric()` -/
+def numericAt (s : List Char) (j : Nat) : Bool :=
+  match s[j]? with
+  | some c => isNumeric c
+  | none => false
+
 /-- `read_token(i, s)`; `.ok none` = Python's `None` (no token starts here).  Called by `tokenise`
     with `i < len(s)` only (`s[i]` would raise IndexError otherwise; the model answers `none`). -/
 def readToken (i : Nat) (s : List Char) : Except LexErr (Option Token) :=
@@ -266,7 +295,7 @@ def readToken (i : Nat) (s : List Char) : Except LexErr (Option Token) :=
   | some c =>
     if c == '"' then readString i s
     else if c == '#' then readInstant i s
-    else if isNumeric c || (c == '.' && (match s[i + 1]? with | some d => isNumeric d | none => false)) then
+    else if isNumeric c || (c == '.' && numericAt s (i + 1)) then
       readNumToken i s
     else
       match scanConst Gen.Tokens.alphaTokens i s Gen.Tokens.constTokens with
